@@ -170,6 +170,7 @@ def configurations(tier):
     add("using-all", "using-ids", (INNER, LEFT), [e(I1), e(I1)], ["C_id", "Id_1"])
     add("using-ids", "using-ids", (INNER, LEFT), [e(I12), e(I1)], ["C_id", "Id_1"])
     add("using-measure", "using-measure", (INNER, LEFT), [(I1, True), e(IK)], ["C_id", "K"])
+    add("using-measure-rev", "using-measure", (INNER,), [e(IK), (I12, True)], ["C_id", "K"])     # the key is a measure of a later operand
     add("equal1", "equal-ids", (INNER, LEFT, FULL), [e(I1), e(I1), e(I1)])
     add("nested-rev3", "nested", (INNER,), [e(I1), e(I12), e(I12)])     # two later operands share identifiers the first lacks
     add("disjoint", "cross-disjoint", (CROSS,), [e(I1), e(I2)])
